@@ -621,6 +621,11 @@ func (sm *SeatManager) Next() error {
 	sm.mu.Lock()
 	defer sm.mu.Unlock()
 
+	// Even with the waiting players let in, two players are required
+	if sm.getNonEmptySeatCount() < 2 {
+		return ErrInsufficientNumberOfPlayers
+	}
+
 	if sm.nextDealer() == nil {
 		return ErrInsufficientNumberOfPlayers
 	}
